@@ -94,6 +94,35 @@ def check_series(ctx, VG, x, t, horizontal, missing, cid, relations=True):
                       {**case, "diff_at": d, "lib": A, "ref": R}, cid)
         return
     ctx.sample({"x": x, "t": t, "type": kind, "links": int(R.sum() // 2)})
+    # the pairwise / per-node accessors answer from the same graph
+    # (neighbouring samples and, for short series, every pair)
+    pairs = [(i, i + 1) for i in range(n - 1)] + [(i + 1, i)
+                                                   for i in range(n - 1)]
+    if n <= 8:
+        pairs = [(i, j) for i in range(n) for j in range(n) if i != j]
+    elif n > 40:
+        pairs = pairs[::max(1, n // 20)]
+    for i, j in pairs:
+        ok, v = ctx.call(g.visibility, i, j)
+        ctx.evals()
+        if not ok or int(v) != int(R[i][j]):
+            nanrole = ":nan-endpoint" if (np.isnan(x[i]) or np.isnan(x[j])) \
+                else ""
+            ctx.violation(f"{kind}:missing={missing}:visibility(i,j)-differs-"
+                          f"from-graph{nanrole}",
+                          {**case, "pair": [i, j], "lib": repr(v),
+                           "ref": int(R[i][j])}, cid)
+            break
+    ctx.count("pair_accessor_checked")
+    for i in ([0, n - 1, n // 2] if n > 8 else range(n)):
+        ok, v = ctx.call(g.visibility_single, i)
+        ctx.evals()
+        if not ok or not np.array_equal(np.asarray(v).astype(int),
+                                        np.asarray(R[i]).astype(int)):
+            ctx.violation(f"{kind}:missing={missing}:visibility_single-"
+                          "differs-from-graph",
+                          {**case, "node": i, "lib": repr(v)}, cid)
+            break
     if not relations:
         return
     with warnings.catch_warnings():
